@@ -362,7 +362,11 @@ class Case:
                 continue
             ed = Edit(reg, op, b, i, n)
             if op == "delete":
-                ed.proxy = bool(e.get("proxy")) and i == 0 and n == nu
+                # retarget_to_proxy together with other edits of the same
+                # block is ambiguous (is the block "wholly deleted"?): the
+                # flag is only kept when the deletion is the block's sole edit
+                ed.proxy = (bool(e.get("proxy")) and i == 0 and n == nu
+                            and not any((x.get("b", 0) % len(self.blocks)) == b for k2, x in enumerate(raw) if k2 != reg))
             else:
                 ed.patch = e["patch"]
                 if not ed.patch.get("toks"):
@@ -479,10 +483,12 @@ class Expected:
         self.labels: Dict[str, tuple] = {}        # name -> ("pos", sec, pos) | ("proxy", gidx)
         self.insns: List[List[ExpInsn]] = []
         self.patch_labels: Dict[str, tuple] = {}
+        self.block_start: Dict[int, tuple] = {}
         for si, (name, idxs) in enumerate(c.sections):
             items = []
             for g in idxs:
                 b = c.blocks[g]
+                items.append(("blockstart", g))
                 for n in b.labels:
                     items.append(Label(n, "start", ("orig", g)))
                 for i, u in enumerate(b.units):
@@ -498,6 +504,9 @@ class Expected:
             data = bytearray()
             insns = []
             for it in items:
+                if isinstance(it, tuple):
+                    self.block_start[it[1]] = (si, pos)
+                    continue
                 if isinstance(it, Label):
                     if it.binding == "patch":
                         self.patch_labels[it.name] = (si, pos, it.temp)
@@ -909,3 +918,38 @@ def out_of_domain(case: Case, exp: "Expected") -> Optional[str]:
                 if tgt[0] == "pos" and tgt[2] not in code_pos[tgt[1]]:
                     return "patch-branch-to-noncode-position"
     return None
+
+
+def label_on_proxy_deleted_neighbour(case: Case) -> bool:
+    """Signature of finding C02-label-follows-proxy-deleted-neighbour: some
+    label that does not belong to a block deleted with retarget_to_proxy sits
+    at the position where that block started."""
+    exp = Expected(case)
+    starts = {exp.block_start[g] for g in exp.proxy_blocks}
+    for name, want in exp.labels.items():
+        if want[0] == "pos" and (want[1], want[2]) in starts:
+            return True
+    for name, (si, pos, _t) in exp.patch_labels.items():
+        if (si, pos) in starts:
+            return True
+    return False
+
+
+def trailing_label_then_insert(case: Case) -> bool:
+    """Signature of finding C02-trailing-patch-label-at-block-end: a patch that
+    ends in a label is inserted at the very end of a block and a later
+    registered patch is inserted at the same place (the label becomes an
+    end-of-block symbol and the second patch is placed in front of it)."""
+    by = {}
+    for ed in case.edits:
+        if ed.op in ("insert", "replace"):
+            by.setdefault((ed.b, ed.i + (ed.n if ed.op == "replace" else 0)), []).append(ed)
+    for (b, i), eds in by.items():
+        if i != len(case.blocks[b].units) or len(eds) < 2:
+            continue
+        eds.sort(key=lambda e: e.reg)
+        for ed in eds[:-1]:
+            items, _ = case.patch_units(ed)
+            if items and isinstance(items[-1], Label):
+                return True
+    return False
